@@ -75,7 +75,24 @@ func StressSchema(r *rand.Rand, doc any, draft Draft) string {
 			}
 		}
 	}
-	switch kind := r.IntN(8); kind {
+	switch kind := r.IntN(9); kind {
+	case 8: // a deep nest of in-place applicators around one leaf: the work must stay linear in the depth
+		n := Pick(r, ChainSizes)
+		var cur any = stressLeaf(r)
+		kws := []string{"allOf", "anyOf", "oneOf"}
+		if r.IntN(2) == 0 {
+			kws = []string{Pick(r, kws)} // one keyword all the way down
+		}
+		for i := 0; i < n; i++ {
+			kw := Pick(r, kws)
+			a := []any{cur}
+			if kw != "allOf" && r.IntN(3) == 0 {
+				a = append(a, false)
+			}
+			cur = map[string]any{kw: a}
+		}
+		attach(cur)
+		return fmt.Sprintf("nest%d", n)
 	case 0, 1: // a long chain of $ref hops ending in a real schema
 		n := Pick(r, ChainSizes)
 		for i := 0; i < n; i++ {
